@@ -209,7 +209,7 @@ pub fn limit_delays(plan: &mut ClientPlan) {
     };
     let sum = |p: &ClientPlan| card_delay.unwrap_or(0) + p.pt.pace_ms as u64 + p.pt.frame_pause.map(|f| f.1 as u64).unwrap_or(0) + p.max_delay_ms as u64;
     if sum(plan) > limit {
-        plan.pt.frame_pause = plan.pt.frame_pause.map(|f| (f.0, f.1.min(100)));
+        plan.pt.frame_pause = plan.pt.frame_pause.map(|f| (f.0, f.1.min(100), f.2));
     }
     if sum(plan) > limit {
         plan.pt.pace_ms = 0;
@@ -239,7 +239,7 @@ pub fn random_transport(plan: &mut ClientPlan, rng: &mut Rng) {
     }
     // every packet arrives in two pieces with a pause in between
     if rng.pct(10) {
-        plan.pt.frame_pause = Some((*rng.pick(&[1u8, 2, 3, 4, 5]), *rng.pick(&[100u32, 800, 3_000])));
+        plan.pt.frame_pause = Some((*rng.pick(&[1u8, 2, 3, 4, 5]), *rng.pick(&[100u32, 800, 3_000]), rng.below(3) as u8));
     }
     plan.pt.status_codes = rng.below(4) as u8;
     plan.pt.intermediate_timeout = if rng.pct(25) { Some(*rng.pick(&[0u8, 1, 30, 99])) } else { None };
@@ -496,6 +496,38 @@ pub fn value_plan(rng: &mut Rng) -> ClientPlan {
                 cleanup: random_cleanup(rng),
             });
         }
+    }
+    // the terminal refuses a commit now and then ("please wait", "receiver not ready", wrong currency, any code)
+    if rng.pct(12) {
+        for op in ops.iter_mut() {
+            if let OpSpec::Commit { rev, .. } = op {
+                if rng.pct(50) {
+                    rev.end = EndSpec::Abort(*rng.pick(&[0x9cu8, 0xa0, 0x6f, 0xb4, 0x64, 0xff]));
+                }
+            }
+        }
+    }
+    // a second round with the very same tokens (and, for one of them, the very same final amount): what
+    // the client kept from the first round - a receipt number, a summary - must not leak into the second;
+    // in that round one reservation comes back without a receipt number (begin must fail, not reuse one)
+    if rng.pct(25) {
+        let first: Vec<OpSpec> = ops.clone();
+        let mut second = first.clone();
+        let mut spoiled = false;
+        for op in second.iter_mut() {
+            if let OpSpec::Begin { res, .. } = op {
+                if !spoiled && rng.pct(40) {
+                    res.status = *rng.pick(&[StatusMode::NoReceipt, StatusMode::Absent]);
+                    spoiled = true;
+                }
+            }
+            if let OpSpec::Commit { amount, .. } = op {
+                if rng.pct(50) {
+                    *amount = final_amount(rng, pre);
+                }
+            }
+        }
+        ops.extend(second);
     }
     // a card is usually read before a transaction begins: whatever the terminal reported about
     // the card (limits, identifiers) must not leak into the reservation / reversal requests
@@ -1166,6 +1198,15 @@ impl Check for ClientCheck {
                 fams.push(Family::new("reservation_abort_with_currency_and_tlv", 4 * 256 * 2, true, |i, _| {
                     let mut p = abort_exchange_plan(1, (i % 256) as u8, ((i / 256) % 2) as u8, 0);
                     p.pt.abort_extras = 1 + (i / 512) as u8;
+                    p
+                }));
+                // the abort packet arrives in two pieces (after 1, 2, 3 bytes) with 0.8 s / 3 s in between
+                fams.push(Family::new("abort_packet_in_two_pieces", 9 * 3 * 2 * 4, true, |i, _| {
+                    let code = [0x6fu8, 0x64, 0xb4, 0x05][(i % 4) as usize];
+                    let ms = [800u32, 3_000][((i / 4) % 2) as usize];
+                    let n = 1 + ((i / 8) % 3) as u8;
+                    let mut p = abort_exchange_plan(i / 24, code, 1, 0);
+                    p.pt.frame_pause = Some((n, ms, 1));
                     p
                 }));
                 // the abort comes late: after 63..255 intermediate / print packets
